@@ -678,7 +678,7 @@ def run(ctx):
         "SCP commands themselves are delivered (C06); signals (count, start) are reliable"]
     try:
         cases = [stale_count_case(), stale_readback_case(), overflow_case()]
-        n = ctx.scale(300, 8000)
+        n = ctx.scale(300, 6000)
         if ctx.extended:
             n *= 4
         for i in range(n):
